@@ -39,7 +39,7 @@ EDGE_DATES = gen.DATES + gen.DATES_EXT + [datetime.date(2020, 12, 28), datetime.
 FORMATS = ["%Y-%m-%d", "%d.%m.%Y", "%Y-%m-%dT%H:%M:%S", "%Y-%m-%dT%H:%M:%S.%f", "%j", "%B", "%G-W%V-%u", "%H:%M", "%A %d"]
 INVERTIBLE = {"D": ["%Y-%m-%d", "%d.%m.%Y", "%G-W%V-%u"], "s": ["%Y-%m-%dT%H:%M:%S"], "us": ["%Y-%m-%dT%H:%M:%S.%f"], "ms": ["%Y-%m-%dT%H:%M:%S.%f"],
               "h": ["%Y-%m-%dT%H:%M:%S"], "m": ["%Y-%m-%dT%H:%M:%S"]}
-PATTERNS = [r"[a-z]", r"[a-z]+", r"\d+", r"x*", r"$", r"\b", r"(a)(b)?", r"(?P<w>\w+) (\w+)", r"^ab", r"a|b", r" +", r"[A-Z]", r"ö", r"(\d)(\d)"]
+PATTERNS = [r"[a-z]", r"[a-z]+", r"\d+", r"x*", r"$", r"\b", r"(a)(b)?", r"(?P<w>\w+) (\w+)", r"^ab", r"a|b", r" +", r"[A-Z]", r"ö", r"(\d)(\d)", "ab", "a", " ", "x", "", "two"]
 STRINGS = ["asdf", "1234", "ab", "abab ab", "one two three", "four", "x", "xxx", "AbC", "a1b22", "ö ä", "two  spaces", "ab\ncd", " lead"]
 
 def _mk_dt(rng, unit):
@@ -63,7 +63,7 @@ def generate(rng, tier):
         vals = [rng.choice(STRINGS) for _ in range(n)]
         fn = rng.choice(["findall", "fullmatch", "match", "search", "split", "sub", "subn"])
         case.update(fn=fn, pattern=rng.choice(PATTERNS), flags=rng.choice([0, 0, re.IGNORECASE, re.MULTILINE]),
-                    repl=rng.choice(["!", "", r"<\g<0>>", "zz"]), count=rng.choice([0, 0, 1, 2]))
+                    repl=rng.choice(["!", "", r"<\g<0>>", "zz", r"\\", r"[\g<0>]"]), count=rng.choice([0, 0, 1, 2]))
     else:
         fn = rng.choice(EXTRACT) if fam == "extract" else fam
         unit = rng.choice(["s", "ms", "us"]) if fn in TIME_PARTS else rng.choice(["D", "D", "h", "m", "s", "ms", "us", "us"])
